@@ -436,6 +436,16 @@ func (e *Env) evalBin(n SBin) Val {
 		return Val{T: t, Typ: boolT}
 	}
 	at, bt := x.termOf(e.st, &a), x.termOf(e.st, &b)
+	// a bit-vector byte against an integer literal
+	if strings.HasPrefix(at.Sort, "(_ BitVec") && bt.Sort == "Int" {
+		if k, ok := modelInt(bt.S); ok {
+			bt = BVLit(uint64(k), 8)
+		}
+	} else if strings.HasPrefix(bt.Sort, "(_ BitVec") && at.Sort == "Int" {
+		if k, ok := modelInt(at.S); ok {
+			at = BVLit(uint64(k), 8)
+		}
+	}
 	// slice == nil
 	if n.Op == "==" || n.Op == "!=" {
 		if _, ok := a.Typ.Underlying().(*types.Slice); ok {
@@ -486,6 +496,18 @@ func (e *Env) evalBin(n SBin) Val {
 				return Val{T: Term{fmt.Sprintf("(* %s %d)", at.S, int64(1)<<uint(k)), "Int"}, Typ: a.Typ}
 			}
 		case "&", "|", "^", "&^":
+			if p, q, ok := lit2(at, bt); ok && p >= 0 && q >= 0 {
+				switch n.Op {
+				case "&":
+					return Val{T: IntLit(p & q), Typ: a.Typ}
+				case "|":
+					return Val{T: IntLit(p | q), Typ: a.Typ}
+				case "^":
+					return Val{T: IntLit(p ^ q), Typ: a.Typ}
+				case "&^":
+					return Val{T: IntLit(p &^ q), Typ: a.Typ}
+				}
+			}
 			name := map[string]string{"&": "int_and", "|": "int_or", "^": "int_xor", "&^": "int_andnot"}[n.Op]
 			x.d.DeclareFun(name, fmt.Sprintf("(declare-fun %s (Int Int) Int)", name))
 			return Val{T: mk("Int", name, at, bt), Typ: a.Typ}
